@@ -20,7 +20,7 @@ import (
 )
 
 type c15StoreOp struct {
-	Op   string `json:"op"` // fetch | dirty | flush | root
+	Op   string `json:"op"` // fetch | dirty | flush | root | failflush (a flush while the file refuses every write)
 	Page int    `json:"p,omitempty"`
 }
 
@@ -34,7 +34,7 @@ type c15StoreCase struct {
 func c15StoreGen(t *rapid.T) c15StoreCase {
 	c := c15StoreCase{StoreCap: rapid.IntRange(4, 24).Draw(t, "cap"), Tables: rapid.IntRange(1, 8).Draw(t, "tables"), Rows: rapid.SampledFrom([]int{10, 40, 90, 200}).Draw(t, "rows")}
 	for n := rapid.IntRange(20, 300).Draw(t, "nops"); n > 0; n-- {
-		op := c15StoreOp{Op: rapid.SampledFrom([]string{"fetch", "fetch", "fetch", "dirty", "dirty", "flush", "root"}).Draw(t, "op"), Page: rapid.IntRange(0, 400).Draw(t, "page")}
+		op := c15StoreOp{Op: rapid.SampledFrom([]string{"fetch", "fetch", "fetch", "fetch", "fetch", "fetch", "dirty", "dirty", "dirty", "dirty", "flush", "flush", "root", "root", "failflush"}).Draw(t, "op"), Page: rapid.IntRange(0, 400).Draw(t, "page")}
 		c.StoreOps = append(c.StoreOps, op)
 	}
 	return c
@@ -81,6 +81,8 @@ func c15StoreRun(c c15StoreCase, st *vlib.Stats) string {
 	}
 	fs.cache = NewLRU(c.StoreCap)   // everything is on disk: start from a cold, small cache
 	held := map[uint64]*btreeNode{} // pages handed out and still dirty (a statement would hold them)
+	lastStamp := map[uint64]uint64{} // the LSN of the last change of every page changed here: what the file must show in the end
+	failedFlushes := 0
 	lsn := uint64(1 << 40)
 	entryFor := func(off uint64) (*list.Element, bool) {
 		for k, el := range fs.cache.cache {
@@ -167,6 +169,30 @@ func c15StoreRun(c c15StoreCase, st *vlib.Stats) string {
 				lsn++
 				n.markDirty(lsn)
 				held[off] = n
+				lastStamp[off] = lsn
+			}
+		case "failflush":
+			// the data file refuses writes for the duration of one flush (a full disk, an I/O
+			// error): whatever the flush reports, a page that could not be written is still unsaved -
+			// it has to stay dirty, hence in the cache, until a later flush does write it
+			ro, err := os.Open(fs.file.Name())
+			if err != nil {
+				return where + ": cannot open the data file read-only: " + err.Error()
+			}
+			wasDirty := map[uint64]bool{}
+			for off, n := range held {
+				wasDirty[off] = n.isDirty()
+			}
+			rw := fs.file
+			fs.file = ro
+			ferr := fs.flushPages()
+			fs.file = rw
+			ro.Close()
+			failedFlushes++
+			for off, n := range held {
+				if wasDirty[off] && !n.isDirty() {
+					return fmt.Sprintf("%s: the flush could not write page %d (the file refused every write; flush returned: %v), yet the page is flagged clean: it can be evicted now and no later flush will write it", where, off, ferr)
+				}
 			}
 		case "flush":
 			if err := fs.flushPages(); err != nil {
@@ -183,7 +209,22 @@ func c15StoreRun(c c15StoreCase, st *vlib.Stats) string {
 			return msg
 		}
 	}
+	// in the end everything is flushed and read back from the file alone: every page changed above
+	// carries the stamp of its last change
+	if err := fs.flushPages(); err != nil {
+		return "closing flush failed: " + err.Error()
+	}
+	fs.cache = NewLRU(len(lastStamp) + 8)
+	for off, want := range lastStamp {
+		n, err := fs.fetch(off)
+		if err != nil {
+			return fmt.Sprintf("reading page %d back after the closing flush failed: %v", off, err)
+		}
+		if n.lastLSN != want {
+			return fmt.Sprintf("page %d was last changed with stamp %d, but after the closing flush the file holds the version stamped %d: an unsaved page was dropped from the cache", off, want, n.lastLSN)
+		}
+	}
 	b, _ := json.Marshal(c)
-	st.Record(b, evictions > 0 && refusals > 0, "store-level", fmt.Sprintf("store-refusals-%v", refusals > 0))
+	st.Record(b, evictions > 0 && refusals > 0, "store-level", fmt.Sprintf("store-refusals-%v", refusals > 0), fmt.Sprintf("store-failed-flushes-%v", failedFlushes > 0))
 	return ""
 }
